@@ -41,6 +41,8 @@ func main() {
 	switch os.Args[1] {
 	case "check":
 		os.Exit(cmdCheck(os.Args[2:]))
+	case "unchecked":
+		cmdUnchecked()
 	case "dump":
 		cmdDump(os.Args[2:])
 	case "replay":
@@ -48,6 +50,66 @@ func main() {
 	default:
 		fmt.Fprintln(os.Stderr, "unknown command")
 		os.Exit(2)
+	}
+}
+
+// cmdUnchecked lists the call sites at which a contract's preconditions are not proved: calls to
+// a function under contract (with requires clauses) from a function that has no contract, or from
+// one whose contract is partial (callee preconditions assumed) or trusted.
+func cmdUnchecked() {
+	eng, err := loadEngine("/repo", []string{"./..."})
+	if err != nil {
+		fmt.Fprintln(os.Stderr, err)
+		os.Exit(2)
+	}
+	var names []string
+	for name := range eng.allFuncs {
+		names = append(names, name)
+	}
+	sort.Strings(names)
+	seen := map[string]bool{}
+	for _, name := range names {
+		f := eng.allFuncs[name]
+		if f.Pkg == nil || strings.HasSuffix(eng.posStr(f.Pos()), "_test.go") {
+			continue
+		}
+		fc := eng.contractFor(f)
+		how := "no contract"
+		if fc != nil {
+			switch {
+			case fc.partial:
+				how = "partial"
+			case fc.trusted:
+				how = "trusted"
+			default:
+				continue
+			}
+		}
+		for _, b := range f.Blocks {
+			for _, in := range b.Instrs {
+				c, ok := in.(ssa.CallInstruction)
+				if !ok {
+					continue
+				}
+				callee := c.Common().StaticCallee()
+				if callee == nil {
+					continue
+				}
+				cc := eng.contractFor(callee)
+				if cc == nil || len(cc.requires) == 0 {
+					continue
+				}
+				var rs []string
+				for _, r := range cc.requires {
+					rs = append(rs, r.src)
+				}
+				line := fmt.Sprintf("%s [%s] -> %s  requires %s", name, how, funcKey(callee), strings.Join(rs, " && "))
+				if !seen[line] {
+					seen[line] = true
+					fmt.Println(line)
+				}
+			}
+		}
 	}
 }
 
